@@ -109,6 +109,20 @@ class DecoratorRegistry:
             return {"trigger_type": "none"}
 
         found_args = set()
+        # the documented names of the trigger options of task.wait_until
+        for doc_name, opt_name in (
+            ("webhook_local_only", "local_only"),
+            ("webhook_methods", "methods"),
+            ("mqtt_trigger_encoding", "encoding"),
+        ):
+            if doc_name in kwargs:
+                value = kwargs.pop(doc_name)
+                func_args.discard(doc_name)
+                if value is not None and opt_name not in kwargs:
+                    kwargs[opt_name] = value
+                    func_args.add(opt_name)
+                # (like the legacy subsystem: without its trigger the option is ignored)
+                found_args.add(opt_name)
         dm = WaitUntilDecoratorManager(ast_ctx, **kwargs)
 
         found_args.add("timeout")
